@@ -215,6 +215,21 @@ def allcommands_scenario(sid, rng, desc=None, upper=False):
     return {"id": sid, "role": "", "steps": steps}
 
 
+def moved_scenario(sid, rng, kinds=("moved",)):
+    """A node answers MOVED / ASK for a few slots although every CLUSTER NODES reply keeps naming it as their owner (a
+    stale view on its side): the redirect is followed, but the proxy's table stays what the descriptions say."""
+    steps = [step([st(op="topo", desc=default_desc(), kind=""), st(op="refresh")])]
+    slots = [rng.randrange(0, 5461) for _ in range(3)] + [0, 5460]
+    for s in slots:
+        steps.append(step([st(op="send", c="c1", reqs=[req("set", [s])])]))
+        steps.append(step([st(op="answer", n="n1", kind=rng.choice(kinds), to=rng.choice(["n2", "n3"]))]))
+        steps += drain(1, 5)
+    steps.append(step([st(op="refresh")]))
+    steps += probes(default_desc(), rng, extra=slots)
+    steps.append(step([st(op="refresh")]))
+    return {"id": sid, "role": "", "steps": steps}
+
+
 def removal_scenario(sid):
     """A request in flight on a silent node while the topology stops listing that node (C15)."""
     cat = {c[0]: c for c in catalogue()}
@@ -410,6 +425,8 @@ def run_generic(pid, tier, seed):
             scs.append(history_scenario("replica-recovers-2", [lab["new-replica-link-down"], lab["reply-err"], lab["new-replica-healthy"]], rng))
             scs.append(history_scenario("bad-then-good", [lab["reply-err"], lab["slot-moved"], lab["reply-nil"], lab["reply-ok"], lab["unclaimed-range"]], rng))
             scs.append(removal_scenario("node-removed-in-flight"))
+            scs.append(moved_scenario("moved-but-still-owner", rng))
+            scs.append(moved_scenario("redirected-but-still-owner", rng, kinds=("moved", "ask")))
             # ordered pairs of adoptable descriptions between two sightings of the default one (fail-over then fail-back,
             # grow then shrink ...): what is adopted must not depend on how the description before it was adopted
             adoptable = [c for c in cat if c[2] == "" and not c[0].startswith(("slot-out", "slot-far", "fewer", "short-master"))]
